@@ -299,7 +299,8 @@ def generate(rng, tier):
             op = {"op": "precision", "bits": rng.choice([32, 64])}
         elif kind == "pollute":
             g = rng.choice(pool)
-            pk = rng.choice(["dft2_backprop", "idft2_backprop", "resample", "nbytes", "ffs_backprop"])
+            pk = rng.choice(["dft2_backprop", "idft2_backprop", "resample", "nbytes", "ffs_backprop",
+                             "ufs_backprop", "wf_ffs_backprop"])
             op = {"op": "pollute", "kind": pk, "g": g, "seed": rng.getrandbits(32),
                   "zoom": rng.choice([0.5, 1.5, 2, 2.0, [1.5, 0.75]])}
         else:
@@ -523,6 +524,12 @@ def _pollute(np, ft, pr, op):
         elif k == "ffs_backprop":
             fbar = rs.standard_normal(out) + 1j * rs.standard_normal(out)
             pr.focus_fixed_sampling_backprop(fbar, 0.1, 100.0, 0.5, 1.0, (m, m), shift=shift)
+        elif k == "ufs_backprop":
+            fbar = rs.standard_normal(out) + 1j * rs.standard_normal(out)
+            pr.unfocus_fixed_sampling_backprop(fbar, 1.0, 100.0, 0.5, 0.1, (m, m), shift=shift)
+        elif k == "wf_ffs_backprop":
+            fbar = rs.standard_normal(out) + 1j * rs.standard_normal(out)
+            pr.Wavefront(fbar, 0.5, 1.0, space="psf").focus_fixed_sampling_backprop(100.0, 0.1, (m, m), shift=shift)
         return "ok"
     except Exception as e:  # outcome of polluters is not judged
         return "raised:" + type(e).__name__
